@@ -243,3 +243,68 @@ def oracle_components(h):
             fails.append(("C09", "%d ComponentUpdated messages for %d writes with %d clients (bound: writes x clients)" % (msgs, len(writes), n),
                           {"phase": ph}))
     return fails
+
+
+# ------------------------------------------------------------------ C08: fault cases
+
+FAULT_STEPS = {
+    # receiver world: x = 1, y = 2, z = 3 ; {P} = spc on a client receiver, sph on the host
+    "comp+despawn_cmd": ("1.2.3", ["ad:1;ac:1:1", "ac:1:1;ad:1"]),
+    "comp+despawn_between": ("2.3", ["ac:1:1", "in"]),
+    "comp+delete_same_frame": ("1.2.3", ["ac:1:1;dc:1", "dc:1;ac:1:1"]),
+    "comp_unregistered_on_receiver": ("1.2.3", ["ac:1:0"]),
+    "parented+child_despawn_cmd": ("1.2.3", ["ad:1;{P}:1:2:1", "{P}:1:2:1;ad:1"]),
+    "parented+parent_despawn_cmd": ("1.2.3", ["ad:2;{P}:1:2:1", "{P}:1:2:1;ad:2"]),
+    "parented+parent_despawn_between": ("1.3", ["{P}:1:2:1", "in"]),
+    "parented+child_despawn_between": ("2.3", ["{P}:1:2:1", "in"]),
+    "delete+delete_crossing": ("2.3", ["dc:1", "in"]),
+    "delete+despawn_cmd": ("1.2.3", ["ad:1;dc:1", "dc:1;ad:1"]),
+    "spawn+delete_same_frame": ("1.2.3", ["sp:4;ac:4:1;dc:4"]),
+    "comp_burst+despawn_cmd": ("1.2.3", ["ad:1;ac:1:1;ac:1:1;ac:1:1", "ac:1:1;ac:1:1;ac:1:1;ad:1"]),
+    "parented_chain+despawn_cmd": ("1.2.3", ["ad:2;{P}:1:2:1;{P}:2:3:1", "{P}:1:2:1;{P}:2:3:1;ad:2"]),
+    "comp+sender_despawns_after_write": ("1.2.3", ["ac:1:1;dc:1"]),
+    "reparent+old_parent_despawn_cmd": ("1.2.3", ["ad:2;{P}:1:3:1", "{P}:1:3:1;ad:2"]),
+    "delete_parent_with_child": ("1.2.3", ["dc:2"]),
+}
+
+
+def fault_lines(h, guards):
+    """the model's verdict for every ordering of the flush of this fault case vs what the implementation did.
+    The implementation picks one order per run (topological order is random), so the comparison is:
+    implementation panicked  =>  the model panics for at least one order;  the model panics for every
+    order  =>  the implementation panicked."""
+    case = h.header.get("case")
+    if case not in FAULT_STEPS:
+        return []
+    world, variants = FAULT_STEPS[case]
+    p = "sph" if h.header.get("to_host") else "spc"
+    g = "".join("1" if guards.get(k, True) else "0" for k in
+                ("guardApplyLooksUp", "guardClientParentLooksUp", "guardServerParentLooksUp", "guardDecodeTotal"))
+    fault_end = next((i for i, e in enumerate(h.events) if e["ev"] == "fault_done"), len(h.events))
+    panicked_in_fault = any(e["ev"] == "frame" and e.get("panic") for e in h.events[:fault_end])
+    out = []
+    for k, v in enumerate(variants):
+        out.append(("%s#%d" % (h.id, k), v.replace("{P}", p), world, g, panicked_in_fault))
+    return out
+
+
+def oracle_fault(h):
+    fails = []
+    if h.panic:
+        fails.append(("C08", "a peer panicked on conforming traffic (%s, %s): %s" % (
+            h.header.get("case"), "client->host" if h.header.get("to_host") else "host->client", str(h.panic.get("msg"))[:160]), {"case": h.header.get("case")}))
+        return fails
+    fin = [e for e in h.events if e["ev"] == "drain" and e.get("final")]
+    if not fin or not fin[0]["quiescent"]:
+        fails.append(("C08", "replication did not settle after the fault case", {"case": h.header.get("case")}))
+        return fails
+    fresh = fin[0].get("fresh")
+    uuid = next((b["uuid"] for b in h.events if b["ev"] == "bind" and b["h"] == fresh), None)
+    if fresh is not None:
+        vals = set()
+        for p in h.peers():
+            st = last_state(h, len(h.events), p)
+            vals.add(comp_value(st, uuid, "A") if (st and uuid) else None)
+        if len(vals) != 1 or None in vals:
+            fails.append(("C08", "the peer stopped replicating after the fault case: a fresh entity/value did not reach every peer", {"case": h.header.get("case")}))
+    return fails
